@@ -2,6 +2,7 @@
 from . import runner
 from . import r_xml
 from . import r_tables as T
+from . import r_sib as S
 
 
 def _p(explanation, not_decided, rules, assumptions=None):
@@ -10,7 +11,7 @@ def _p(explanation, not_decided, rules, assumptions=None):
 
 def registry():
     R = {}
-    R["DEV"] = _p("dev", "", [T.r_tab_err, T.r_tab_t, T.r_tab_vis, T.r_tab_typ, T.r_tab_ods, T.r_tab_op, T.r_tab_fmt, T.r_tab_fmtkind, T.r_tab_rec, T.r_tab_from, T.r_tab_de, T.r_tab_cfb])
+    R["DEV"] = _p("dev", "", [S.r_sib_xlsx, S.r_sib_xlsb, S.r_deleg, S.r_tight, S.r_at, S.r_ws, S.r_notfound])
     return R
 
 
